@@ -1,3 +1,4 @@
+import copy
 from typing import Any, Optional, Sequence
 
 import pydantic
@@ -72,7 +73,7 @@ class Spec(pydantic.BaseModel):
             if not self.is_patch_fits(patches):
                 raise PatchSpecificationMatchFailError()
 
-        data = self.data.copy()
+        data = copy.deepcopy(self.data)
 
         if patches is None:
             return data
